@@ -53,7 +53,7 @@ class C17(FsProp):
         cl = ["C17.safe", "C17.error", "C17.prefix", "C17.works", "X17.fsmodel"]
         reqs = []
         for f in FIELDS:
-            forms = ["s1", "c"] + (["unenc"] if f != "private" else [])
+            forms = ["s1", "c"] + (["unenc", "unenctext"] if f != "private" else [])
             for form in forms:
                 r = {g: "u" for g in FIELDS}
                 r[f] = form
@@ -72,7 +72,7 @@ class C17(FsProp):
         for v in versions:
             for k, r in enumerate(reqs):
                 entries = ["lib"]
-                if "unenc" not in r.values() and all(not (form == "c" and f not in ("comment", "source")) for f, form in r.items()):
+                if "unenc" not in r.values() and "unenctext" not in r.values() and all(not (form == "c" and f not in ("comment", "source")) for f, form in r.items()):
                     entries.append("cli")
                 if tier != "thorough" and (k + v) % 2:
                     entries = entries[:1]
